@@ -38,9 +38,12 @@ MViol(mm) == IF MonName \in {"C05", "C14"} THEN mm.L.viol ELSE mm.viol
 PViol(mm) == SelectSeq(MViol(mm), LAMBDA v : v.prop = MonName)
 
 \* ---- the inputs offered to the outstation in each state
-H(n) == [n |-> n, lim |-> -1]
+H(n) == [n |-> n, lim |-> -1, v |-> 0]
+HasBi == \E p \in 1..NP : Pts[p].ty = "bi"
 ReadHeaders == {<<H("c1")>>, <<H("c2")>>, <<H("c1"), H("c2"), H("c3")>>, <<H("c0")>>,
-                <<H("c1"), H("c2"), H("c3"), H("c0")>>, <<[n |-> "c1", lim |-> 1]>>}
+                <<H("c1"), H("c2"), H("c3"), H("c0")>>, <<[n |-> "c1", lim |-> 1, v |-> 0]>>}
+               \cup (IF HasBi THEN {<<[n |-> "bi", lim |-> -1, v |-> 1]>>} ELSE {})
+ClassSets == {Classes, {1}}
 
 R(f, st, more) == [k |-> "req", f |-> f, seq |-> NextReqSeq(st), cl |-> {}, rep |-> FALSE] @@ more
 
@@ -56,8 +59,8 @@ InputsEvents(st) ==
     \cup (IF st.pc \in {"Down", "Dead"} THEN {} ELSE
             {[k |-> "read", seq |-> NextReqSeq(st), hs |-> h, rep |-> FALSE] : h \in ReadHeaders}
             \cup {[k |-> "req", f |-> "delay", seq |-> NextReqSeq(st), cl |-> {}, rep |-> FALSE]}
-            \cup {[k |-> "req", f |-> f, seq |-> NextReqSeq(st), cl |-> Classes, rep |-> FALSE] :
-                      f \in {"enable", "disable"}}
+            \cup {[k |-> "req", f |-> f, seq |-> NextReqSeq(st), cl |-> c, rep |-> FALSE] :
+                      f \in {"enable", "disable"}, c \in ClassSets}
             \cup RepeatLast(st)
             \cup UNION {{[k |-> "conf", uns |-> u, seq |-> sq] :
                               sq \in {RightConfirmSeq(st, u), S16(RightConfirmSeq(st, u) + 1)}} :
